@@ -212,7 +212,12 @@ func (i *Interpreter) pushLoadedFragment(pathset string, units []parse.SourceUni
 	i.pushSourceFragment(pathset, units, programInfo)
 
 	fmt.Fprintf(i.out, "loaded %s.\n", pathset)
-	return i.evalProgram(programInfo)
+	if err := i.evalProgram(programInfo); err != nil {
+		// A fragment that cannot be evaluated is not kept.
+		i.popSourceFragment()
+		return err
+	}
+	return nil
 }
 
 func copyDecls(decls map[ast.PredicateSym]ast.Decl) map[ast.PredicateSym]ast.Decl {
